@@ -21,7 +21,7 @@ RULE = (
     "scales-only / offsets-only) x objective scaler on/off x constraint scaler {none, 5, 0.25} x variable bounds {none, "
     "both, mixed} x linear rows (three integer coefficient rows x bound kinds eq/lower/upper/two-sided/free) x "
     "perturbations {absolute, relative} x boundary types {NONE, TRUNCATE, MIRROR} x sampler {built-in norm with equal "
-    "seed, injected design}. Oracle: evaluator rows equal; user-domain results (variables, per-realization values, "
+    "seed, injected design}; with and without a realization failing in the evaluator step (results without functions). Oracle: evaluator rows equal; user-domain results (variables, per-realization values, "
     "function values, all six difference arrays, three violation arrays) equal to the untransformed run (1e-9); lattice: "
     "user-feasible (bounds, linear) <=> transformed configuration feasible at to_optimizer(x); from_optimizer(to_optimizer(x)) == x. "
     "Weighted objective and gradients are not compared (the statement does not list them). Every case is non-trivial."
@@ -94,12 +94,14 @@ def user_config(case: dict[str, Any]) -> dict[str, Any]:
     return config
 
 
-def run_both_steps(config: dict[str, Any], transforms: Any) -> dict[str, Any]:
+def run_both_steps(config: dict[str, Any], transforms: Any, fail: bool = False) -> dict[str, Any]:
     from ropt.enums import EventType
     from ropt.plan import OptimizerContext, Plan
 
     manager, scripted = make_manager()
-    evaluator = TableEvaluator(ensemble_fn(), 2, 1)
+    # fail: realization 1 fails in the evaluator step (call 0), so its results carry no functions - their variables and
+    # bound / linear differences are still reported and must not depend on the transforms
+    evaluator = TableEvaluator(ensemble_fn(), 2, 1, fail=(lambda call, row, r, p: [0] if (fail and call == 0 and r == 1) else None))
     context = OptimizerContext(evaluator=evaluator, plugin_manager=manager)
     events: list[Any] = []
     context.add_observer(EventType.FINISHED_EVALUATION, events.append)
@@ -168,13 +170,13 @@ def judge(case: dict[str, Any]) -> Judgement:
         con_scales=[case["con"]] if case["con"] else None,
     )
     try:
-        plain = run_both_steps(config, None)
+        plain = run_both_steps(config, None, bool(case.get("fail")))
     except Exception as exc:  # noqa: BLE001
         j.trivial = True
         j.outcome = f"untransformed-run-raised:{type(exc).__name__}"
         return j
     try:
-        trans = run_both_steps(config, transforms)
+        trans = run_both_steps(config, transforms, bool(case.get("fail")))
     except Exception as exc:  # noqa: BLE001
         j.fail(f"transformed-run-raised:{type(exc).__name__}", message=str(exc)[:200])
         return j
@@ -214,7 +216,7 @@ def judge(case: dict[str, Any]) -> Judgement:
             if fu != ft and min(mu, mt) > 1e-9:
                 j.fail("feasibility-differs-between-domains", x=x, user=fu, transformed=ft, lin=case["lin"], bounds=case["bounds"])
                 break
-    j.outcome = f"obj={case['obj']}/con={case['con']}/b={case['bounds']}/lin={case['lin']}/p={case['ptype']}{case['btype']}/{case['sampler']}"
+    j.outcome = f"fail={case.get('fail')}/obj={case['obj']}/con={case['con']}/b={case['bounds']}/lin={case['lin']}/p={case['ptype']}{case['btype']}/{case['sampler']}"
     return j
 
 
@@ -235,10 +237,13 @@ def run_shard(shard: dict[str, Any]) -> core.ShardResult:
             continue
         if shard["tier"] == "quick" and lin is not None and sampler == "norm" and btype == 1:
             continue  # quick: NONE boundary with the built-in sampler only for the unconstrained config (full in thorough)
-        case = {"vscale": scales, "voffset": offsets, "obj": obj, "con": con, "bounds": shard["bounds"], "lin": lin,
-                "ptype": ptype, "btype": btype, "sampler": sampler}
-        j = judge(case)
-        rec.add((shard["vt"], shard["bounds"], obj, con, lin, ptype, btype, sampler), case, j)
+        for fail in (False, True):
+            if fail and (sampler != "design" or btype != 2 or ptype != 1):
+                continue  # the failing-realization variant does not depend on the perturbation settings
+            case = {"vscale": scales, "voffset": offsets, "obj": obj, "con": con, "bounds": shard["bounds"], "lin": lin,
+                    "ptype": ptype, "btype": btype, "sampler": sampler, "fail": fail}
+            j = judge(case)
+            rec.add((shard["vt"], shard["bounds"], obj, con, lin, ptype, btype, sampler, fail), case, j)
     return rec.finish()
 
 
